@@ -847,9 +847,161 @@ def spell_out_dataclass_construction(P):
     return n
 
 
+class _TableSubst(ast.NodeTransformer):
+    def __init__(self, m):
+        self.m = m
+
+    def visit_Name(self, n):
+        if isinstance(n.ctx, ast.Load) and n.id in self.m:
+            v = copy.deepcopy(self.m[n.id])
+            v._from_table = True
+            return ast.copy_location(v, n)
+        return n
+
+    def visit_FunctionDef(self, n):
+        return n
+
+    visit_AsyncFunctionDef = visit_Lambda = visit_ClassDef = visit_FunctionDef
+
+
+def _const_truth(e):
+    """truth value of a test that is decided by a substituted table value, else None"""
+    if isinstance(e, ast.UnaryOp) and isinstance(e.op, ast.Not):
+        v = _const_truth(e.operand)
+        return None if v is None else not v
+    if isinstance(e, ast.Compare) and len(e.ops) == 1 and isinstance(e.ops[0], (ast.Is, ast.IsNot)) and isinstance(e.comparators[0], ast.Constant) \
+            and e.comparators[0].value is None and getattr(e.left, '_from_table', False):
+        l = e.left
+        isnone = isinstance(l, ast.Constant) and l.value is None
+        known = isinstance(l, (ast.Constant, ast.Tuple, ast.List, ast.Dict, ast.Set))
+        if known:
+            return isnone if isinstance(e.ops[0], ast.Is) else not isnone
+    if getattr(e, '_from_table', False) and isinstance(e, (ast.Constant, ast.Tuple, ast.List, ast.Dict, ast.Set)):
+        if isinstance(e, ast.Constant):
+            return bool(e.value)
+        return bool(e.elts if not isinstance(e, ast.Dict) else e.keys)
+    return None
+
+
+def _fold_block(stmts):
+    """prune tests decided by substituted table values; drop what follows a terminator; read `a, b = (X, Y)` of substituted values through"""
+    out = []
+    stmts = list(stmts)
+    i = 0
+    while i < len(stmts):
+        s = stmts[i]
+        i += 1
+        if isinstance(s, ast.If):
+            v = _const_truth(s.test)
+            if v is not None:
+                stmts[i:i] = s.body if v else s.orelse
+                continue
+            s.body = _fold_block(s.body) or [ast.copy_location(ast.Pass(), s)]
+            s.orelse = _fold_block(s.orelse)
+        elif isinstance(s, (ast.For, ast.AsyncFor, ast.While, ast.With, ast.AsyncWith)):
+            s.body = _fold_block(s.body) or [ast.copy_location(ast.Pass(), s)]
+        elif isinstance(s, ast.Try):
+            s.body = _fold_block(s.body) or [ast.copy_location(ast.Pass(), s)]
+        elif isinstance(s, ast.Assign) and len(s.targets) == 1 and getattr(s.value, '_from_table', False):
+            t, v = s.targets[0], s.value
+            m = None
+            if isinstance(t, ast.Name) and _literalish(v):
+                m = {t.id: v}
+            elif isinstance(t, ast.Tuple) and isinstance(v, ast.Tuple) and len(t.elts) == len(v.elts) and all(isinstance(x, ast.Name) for x in t.elts) \
+                    and all(_literalish(x) for x in v.elts):
+                m = {x.id: y for x, y in zip(t.elts, v.elts)}
+            rest = stmts[i:]
+            if m and not any(isinstance(x, ast.Name) and x.id in m and isinstance(x.ctx, (ast.Store, ast.Del)) for r in rest for x in ast.walk(r)):
+                stmts[i:] = [_TableSubst(m).visit(r) for r in rest]
+                continue
+        out.append(s)
+        if isinstance(s, (ast.Return, ast.Raise, ast.Continue, ast.Break)):
+            break
+    return out
+
+
+def specialise_tables(P):
+    """`T = {k1: v1, k2: v2}.get(K, d)` (or `{..}[K]`) followed by REST, the table being a literal (typically a new module / class constant
+    already read back as its value), is the decision chain `if K == k1: REST[T:=v1] elif K == k2: REST[T:=v2] else: REST[T:=d]` - the shape
+    table-driven code has when written out. Applied when K is a plain name / attribute chain, T is not re-bound in REST and REST is small."""
+    n = 0
+    for q, f in P.funcs.items():
+        if isinstance(f.node, ast.Lambda):
+            continue
+        changed = [False]
+        stored_anywhere = {x.id for x in ast.walk(f.node) if isinstance(x, ast.Name) and isinstance(x.ctx, (ast.Store, ast.Del))}
+
+        def lookup(v):
+            """(dict display, key expr, default expr or 'KeyError') of a table lookup"""
+            if isinstance(v, ast.Subscript) and isinstance(v.value, ast.Dict):
+                return v.value, v.slice, 'KeyError'
+            if isinstance(v, ast.Call) and isinstance(v.func, ast.Attribute) and v.func.attr == 'get' and isinstance(v.func.value, ast.Dict) \
+                    and 1 <= len(v.args) <= 2 and not v.keywords:
+                return v.func.value, v.args[0], (v.args[1] if len(v.args) == 2 else ast.Constant(None))
+            return None
+
+        def block(stmts):
+            stmts = list(stmts)
+            for i, s in enumerate(stmts):
+                for fld in ('body', 'orelse', 'finalbody'):
+                    b = getattr(s, fld, None)
+                    if isinstance(b, list) and b and isinstance(b[0], ast.stmt) and not isinstance(s, FuncT + (ast.ClassDef,)):
+                        setattr(s, fld, block(b))
+                if isinstance(s, ast.Try):
+                    for h in s.handlers:
+                        h.body = block(h.body)
+                if not (isinstance(s, ast.Assign) and len(s.targets) == 1):
+                    continue
+                lk = lookup(s.value)
+                if lk is None:
+                    continue
+                D, K, dflt = lk
+                t = s.targets[0]
+                names = [t.id] if isinstance(t, ast.Name) else [x.id for x in t.elts] if isinstance(t, ast.Tuple) and all(isinstance(x, ast.Name) for x in t.elts) else None
+                if names is None or not (1 <= len(D.keys) <= 8) or any(k is None or not _literalish(k) for k in D.keys):
+                    continue
+                if not all(isinstance(x, (ast.Name, ast.Attribute, ast.Load)) for x in ast.walk(K)) or any(isinstance(x, ast.Name) and x.id in names for x in ast.walk(K)):
+                    continue
+                vals = list(D.values) + ([] if dflt == 'KeyError' else [dflt])
+                # values may only mention names the function never re-binds
+                if any(isinstance(x, ast.Name) and x.id in stored_anywhere for v in vals for x in ast.walk(v)):
+                    continue
+                if len(names) > 1 and not all(isinstance(v, ast.Tuple) and len(v.elts) == len(names) for v in vals):
+                    continue
+                rest = stmts[i + 1:]
+                if not rest or sum(1 for r in rest for _ in ast.walk(r)) > 120 or any(isinstance(x, FuncT + (ast.ClassDef, ast.Lambda)) for r in rest for x in ast.walk(r)):
+                    continue
+                if any(isinstance(x, ast.Name) and x.id in names and isinstance(x.ctx, (ast.Store, ast.Del)) for r in rest for x in ast.walk(r)):
+                    continue
+
+                def arm(v):
+                    m = {names[0]: v} if len(names) == 1 else dict(zip(names, v.elts))
+                    return _fold_block([_TableSubst(m).visit(copy.deepcopy(r)) for r in rest]) or [ast.copy_location(ast.Pass(), s)]
+                if dflt == 'KeyError':
+                    tail = [ast.copy_location(ast.Raise(exc=ast.Call(func=ast.Name(id='KeyError', ctx=ast.Load()), args=[copy.deepcopy(K)], keywords=[]), cause=None), s)]
+                    tail[0]._table_miss = True      # the arm `key not in the table`: feasible only if the key can take other values
+                else:
+                    tail = arm(dflt)
+                for k, v in reversed(list(zip(D.keys, D.values))):
+                    test = ast.Compare(left=copy.deepcopy(K), ops=[ast.Eq()], comparators=[copy.deepcopy(k)])
+                    tail = [ast.copy_location(ast.If(test=test, body=arm(v), orelse=tail), s)]
+                for x in tail:
+                    ast.fix_missing_locations(x)
+                changed[0] = True
+                return stmts[:i] + block(tail)
+            return stmts
+        f.node.body = block(f.node.body)
+        if changed[0]:
+            from .canon import canonicalise_function
+            canonicalise_function(f.node, generated=True)
+            n += 1
+    return n
+
+
 def normalise_calls(P):
     base = baseline()
     stats = {'keywords_reordered': 0, 'expanded': [], 'functions_with_new_constants': inline_new_constants(P)}
+    stats['tables_specialised'] = specialise_tables(P)
     stats['records_spelled_out'] = spell_out_dataclass_construction(P)
     for q, f in list(P.funcs.items()):
         if isinstance(f.node, ast.Lambda):
